@@ -59,7 +59,7 @@ Section Wire.
   Record levent := { le_ts : Z; le_msg : bytes; le_flds : bytes }.
 
   (* LogEvent.Unmarshal(buf, newBuf) on the receiver [prev] (the struct is reused by the iterators:
-     Fields is left as it was when header bit 0 is clear) *)
+     since fix 39c6d07 Fields is cleared when header bit 0 is clear; before, it was left as it was) *)
   Definition le_unmarshal (prev : levent) (buf : bytes) : outcome (Z * levent) :=
     '(nn, hdr) <- unmarshal_byte buf ;;
     b1 <- slice_from buf nn ;;
@@ -72,7 +72,7 @@ Section Wire.
       b3 <- slice_from buf nn ;;
       '(n, flds) <- unmarshal_bytes_g g b3 ;;
       Ok (nn + n, {| le_ts := int64_of_u64 ts; le_msg := msg; le_flds := flds |})
-    else Ok (nn, {| le_ts := int64_of_u64 ts; le_msg := msg; le_flds := le_flds prev |}).
+    else Ok (nn, {| le_ts := int64_of_u64 ts; le_msg := msg; le_flds := [] |}).   (* Fields cleared (fix 39c6d07); was: kept from prev *)
 
   (* wpIterator *)
   Record wpit := { wp_buf : bytes; wp_tags : bytes; wp_flds : bytes; wp_pos : Z; wp_recs : Z; wp_cur : Z;
